@@ -194,7 +194,7 @@ func (n *SimNet) Down(addr string) {
 		sn.conns = nil
 	}
 	// connections opened by this node to others
-	for _, o := range n.nodes {
+	for _, o := range detRange(n.nodes) {
 		var keep []*simConn
 		for _, c := range o.conns {
 			if c.from == addr || c.to == addr {
@@ -209,6 +209,24 @@ func (n *SimNet) Down(addr string) {
 	for _, c := range conns {
 		c.Close()
 	}
+}
+
+// ResetIdleConns drops every established connection while all nodes stay up (an
+// idle TCP connection reset by a middlebox). Call it only while no request is in
+// flight: the cached rpc clients then find their connection dead on next use.
+func (n *SimNet) ResetIdleConns() int {
+	n.mu.Lock()
+	var conns []*simConn
+	for _, o := range detRange(n.nodes) {
+		conns = append(conns, o.conns...)
+		o.conns = nil
+	}
+	n.stats["idle-conn-reset"] += len(conns) / 2
+	n.mu.Unlock()
+	for _, c := range conns {
+		c.Close()
+	}
+	return len(conns) / 2
 }
 
 func (n *SimNet) dial(network, address string) (*rpc.Client, error) {
